@@ -96,6 +96,26 @@ Proof.
     pose proof (held_run c Hio Hhv cid _ es2 s' true (-1) HC Hq) as H. rewrite Er in H. cbn [snd] in H. exact (H H2).
 Qed.
 
+(* non-vacuity: a concrete history (a flushed file, a tombstone in the memtable), a cursor opened on
+   it and held across a call, a rollover, the flush that drops the memtable it iterates, writes, an
+   install that retires both ssts it reads, their removal from trash/, and more calls in both
+   directions: the hypotheses hold and the calls return the scan-open contents *)
+Definition ex_cfg : cfg := mkCfg true true false 60.
+Definition ex_es1 : list event :=
+  [EWrite [([97], Some [1]); ([98], Some [2])]; ERollover; EFlushDone 7; EWrite [([98], None)]; EWrite [([99], Some [3])]].
+Definition ex_es2 : list event :=
+  [EStep 1 ONext; ERollover; EFlushDone 8; EWrite [([97], Some [9])]; EWrite [([100], Some [4])];
+   EInstall [[]; [mkFile 9 [mkE [97] 3 (Some [1]); mkE [98] 5 None; mkE [98] 3 (Some [2]); mkE [99] 6 (Some [3])]]];
+   EUnlinkTrash [7; 8]; EStep 1 ONext; EStep 1 ONext; EStep 1 OPrev; EStep 1 OLast; EStep 1 OPrev].
+Example ex_stable :
+  let s1 := fst (mrun ex_cfg (minit 2) ex_es1) in
+  find_scan s1 1 = None /\ open_wfb ex_cfg s1 Unbounded Unbounded = true /\ quietb 1 true ex_es2 = true /\
+  scan_spec s1 Unbounded Unbounded = [mkE [97] 3 (Some [1]); mkE [99] 6 (Some [3])] /\
+  cursor_trace 1 (EOpen 1 Unbounded Unbounded :: ex_es2) (snd (mrun ex_cfg s1 (EOpen 1 Unbounded Unbounded :: ex_es2))) =
+    [OObs (Some (mkE [97] 3 (Some [1])), None); OObs (Some (mkE [99] 6 (Some [3])), None); OObs (None, None);
+     OObs (Some (mkE [99] 6 (Some [3])), None); OObs (None, None); OObs (Some (mkE [99] 6 (Some [3])), None)].
+Proof. vm_compute. repeat split. Qed.
+
 (* The key lemma for writes that land in the skiplist under the cursor: a PruningCursor at t over
    the skiplist iterator of a list l0 keeps behaving as the reference cursor over prune_spec t l0
    while, between its calls, the list is replaced any number of times by longer sorted lists that
